@@ -139,6 +139,7 @@ class IndexValues(Harness):
                 m._is_running = True
             idx._update_time(next_fundamental_price=idx.compute_fundamental_index(time=idx.get_time() + 1))
             ps = []
+            cur = [m.get_market_price() for m in comps]
             for i, m in enumerate(comps):
                 # a real trade at a symbolic price sets the component's market price
                 p = g.int(f"p{i}_{t}", 1, 10 ** 6)
@@ -147,6 +148,10 @@ class IndexValues(Harness):
                 m._execution()
                 ps.append(p)
                 g.require(m.get_market_price() == p, "C17.harness:trade-sets-price")
+                # the index follows every price change inside the step
+                cur[i] = p
+                g.require(aeq(idx.get_index() * sum(shares), sum(x * s_ for x, s_ in zip(cur, shares))),
+                          "C17.index!=weighted-average-of-market-prices", f"after the trade on component {i} in step {t}")
             hist.append((fs, ps))
             tot = sum(shares)
             for tt, (fs_, ps_) in enumerate(hist):
